@@ -303,6 +303,18 @@ class Project:
                 if ci is not None:
                     return self.lookup_method(ci, f.attr)
                 return None
+            # self.<attr>.<method>(...) where some method of the class assigns self.<attr> = Class(...)
+            if isinstance(f.value, ast.Attribute) and isinstance(f.value.value, ast.Name) and f.value.value.id == "self":
+                ci = fi.cls
+                p = fi
+                while ci is None and p.parent is not None:
+                    p = p.parent
+                    ci = p.cls
+                if ci is not None:
+                    tci = self.attr_class(ci, f.value.attr)
+                    if tci is not None:
+                        return self.lookup_method(tci, f.attr)
+                return None
             if isinstance(f.value, ast.Name):
                 kind, obj = self.resolve_name(fi.module.name, f.value.id)
                 if kind == "module":
@@ -311,6 +323,28 @@ class Project:
                         return obj2
                 if kind == "class":
                     return self.lookup_method(obj, f.attr)
+        return None
+
+    def attr_class(self, ci: ClassInfo, attr: str) -> Optional[ClassInfo]:
+        """Class of `self.<attr>` when every assignment to it in the class is a constructor call of one class."""
+        found = set()
+        for m in self.methods(ci).values():
+            for s in _walk_no_nested(m.node):
+                tgt = val = None
+                if isinstance(s, ast.Assign) and len(s.targets) == 1:
+                    tgt, val = s.targets[0], s.value
+                elif isinstance(s, ast.AnnAssign):
+                    tgt, val = s.target, s.value
+                if isinstance(tgt, ast.Attribute) and tgt.attr == attr and isinstance(tgt.value, ast.Name) and tgt.value.id == "self":
+                    if isinstance(val, ast.Call) and isinstance(val.func, ast.Name):
+                        kind, obj = self.resolve_name(ci.module.name, val.func.id)
+                        found.add(obj.qual if kind == "class" else None)
+                    elif isinstance(val, ast.Constant) and val.value is None:
+                        continue
+                    else:
+                        found.add(None)
+        if len(found) == 1 and None not in found:
+            return self.classes[next(iter(found))]
         return None
 
     def lookup_method(self, ci: ClassInfo, name: str, depth: int = 0) -> Optional[FuncInfo]:
